@@ -4,7 +4,8 @@ Monitor: a generated checker-valid, executable model M (vfpy/gen_exec.py) is tra
 sequence P of 1-4 built-in passes (all 19 exported by ``onnx_ir.passes.common``, default and varied
 constructor parameters; applied one by one, or composed with ``Sequential`` / ``PassManager``).
 Refuting events: P(M) cannot be serialised or ``onnx.checker`` rejects it although it accepted M;
-the number/order of graph outputs or of non-initializer inputs changed; an evaluator that executed
+P(M) reaches a call of a model-local function that M defined and P(M) no longer defines (it computes
+nothing; decided structurally); the number/order of graph outputs or of non-initializer inputs changed; an evaluator that executed
 BOTH M and P(M) on the same inputs returns different outputs at some position (exact: dtype, shape,
 values, NaN == NaN).  Evaluators: ``onnx.reference.ReferenceEvaluator`` and onnxruntime without graph
 optimisations.  A pass that raises produces no transformed model (counted ``pass_error:<Pass>``; the
@@ -194,6 +195,41 @@ def _sig_io(proto):
             [(o.name, o.type.tensor_type.elem_type) for o in proto.graph.output])
 
 
+_STANDARD_DOMAINS = {"", "ai.onnx", "ai.onnx.ml", "ai.onnx.training", "ai.onnx.preview.training", "com.microsoft"}
+
+
+def _norm(domain: str) -> str:
+    return "" if domain == "ai.onnx" else domain
+
+
+def _all_nodes(nodes):
+    for n in nodes:
+        yield n
+        for a in n.attribute:
+            for g in ([a.g] if a.type == onnx.AttributeProto.GRAPH else list(a.graphs)):
+                yield from _all_nodes(g.node)
+
+
+def dangling_calls(proto, once_defined=None) -> set[tuple[str, str, str]]:
+    """Operator identifiers (domain, op_type, overload) of calls that are *reachable* from the main
+    graph (through subgraphs and through the bodies of the defined functions that are called) but
+    are not defined in ``proto.functions``.  Only non-standard domains count, or - with
+    ``once_defined`` - exactly the identifiers in that set."""
+    defined = {(_norm(f.domain), f.name, f.overload): f for f in proto.functions}
+    dangling, seen = set(), set()
+    work = [proto.graph.node]
+    while work:
+        for n in _all_nodes(work.pop()):
+            ident = (_norm(n.domain), n.op_type, n.overload)
+            if ident in defined:
+                if ident not in seen:
+                    seen.add(ident)
+                    work.append(defined[ident].node)
+            elif (ident in once_defined) if once_defined is not None else (ident[0] not in _STANDARD_DOMAINS):
+                dangling.add(ident)
+    return dangling
+
+
 def overrides_allowed(specs) -> bool:
     """RemoveInitializersFromInputsPass legitimately turns an optional input into a constant; what
     later passes do with that constant (merge it, expose it again under the old name) is then
@@ -218,6 +254,17 @@ def evaluate(case: GE.Case, model: ir.Model, ctx=None, want: str | None = None, 
     count("checker_decided")
     if msg is not None:
         found.append(("checker-rejects:" + GE.checker_class(msg), "onnx.checker accepted M but rejects P(M): " + msg[:500]))
+    # a call that the pass left without its definition: M defined the function, P(M) still reaches a call
+    # of it but no longer defines it -> P(M) computes nothing (decided on the structure of the two
+    # protos, not on what an evaluator says).  M itself must be free of such calls.
+    defined0 = {(_norm(f.domain), f.name, f.overload) for f in case.proto.functions}
+    if defined0 and not dangling_calls(case.proto, defined0):
+        count("dangling_calls_decided")
+        lost = dangling_calls(proto, defined0)
+        if lost:
+            found.append(("dangling-function-call", "P(M) still calls " + ", ".join(
+                f"{d}::{n}" + (f":{o}" if o else "") for d, n, o in sorted(lost)) +
+                " (reachable from the main graph) but no longer defines it; M defined it"))
     ins0, outs0 = _sig_io(case.proto)
     ins1, outs1 = _sig_io(proto)
     count("io_decided")
@@ -237,7 +284,7 @@ def evaluate(case: GE.Case, model: ir.Model, ctx=None, want: str | None = None, 
                 count(f"report_only_{what}_renamed")
     if want is not None and not want.startswith("outputs-differ"):
         return found
-    if (msg is not None or io_broken) and want is None:
+    if (msg is not None or io_broken or any(c == "dangling-function-call" for c, _ in found)) and want is None:
         # an invalid model has no defined outputs.  (While shrinking an outputs-differ witness the
         # comparison is still made, so that the pass that *introduced* the difference is found even
         # if the model was only made checkable again by a later pass.)
